@@ -287,6 +287,103 @@ def impl_detect(mods, proto, auth, attempts):
         socks.asyncio, socks.socket = saved
 
 
+# _connect --------------------------------------------------------------------------------
+class ConLoop(DetLoop):
+    """one getaddrinfo entry per remote address; `attempts[k]` is what the k-th connection meets"""
+
+    async def getaddrinfo(self, host, port, **kw):
+        return [(2, 1, 6, '', ('127.0.0.1', 1080))]
+
+    async def sock_connect(self, sock, addr):
+        self.k += 1
+        a = self.attempts[self.k]
+        if a is None:
+            raise OSError('connection refused')
+        self.cur = FakeLoop(a, [len(a)] if a else [])
+
+
+def _with_fakes(mods, loop, fn):
+    socks = mods.socks
+    saved = socks.asyncio, socks.socket
+    socks.asyncio, socks.socket = FakeAsyncio(loop), FakeSocketModule
+    try:
+        with sc.watchdog(5.0):
+            return fn()
+    finally:
+        socks.asyncio, socks.socket = saved
+
+
+def con_address(mods, proto, i, behaviour):
+    """remote address number i; behaviour 'v6' asks a SOCKS4 proxy for an IPv6 destination
+    (the constructor refuses: the exception escapes _connect_one)"""
+    if behaviour == 'v6':
+        return sc.make_address(mods, V6, 1000 + i)
+    return sc.make_address(mods, V4, 1000 + i)
+
+
+def impl_connect(mods, proto, behaviours):
+    """-> (model line, result of the real _connect, per-address outcomes)"""
+    socks = mods.socks
+    proxy = socks.SOCKSProxy(mods.util.NetAddress('localhost', 1080), mods.cls[proto], None)
+    addrs = [con_address(mods, proto, i, b) for i, b in enumerate(behaviours)]
+    streams = [None if b == 'x' else b'' if b == 'v6' else bytes(b) for b in behaviours]
+    toks, reprs = [], {}
+    for addr, b, st in zip(addrs, behaviours, streams):
+        try:
+            r = _with_fakes(mods, ConLoop([st]), lambda: drive(proxy._connect_one(addr)))
+        except Exception as e:      # observed: escaped _connect_one
+            toks.append('x:' + sc.exc_name(e))
+            continue
+        if isinstance(r, FakeSocket):
+            toks.append('s')
+        else:
+            toks.append(f'e:{sc.exc_name(r)}:{reprs.setdefault(repr(r), len(reprs))}')
+    # the constructor raises before a connection is made: that address consumes no attempt
+    flat = [st for b, st in zip(behaviours, streams) if b != 'v6']
+    try:
+        r = _with_fakes(mods, ConLoop(flat), lambda: drive(proxy._connect(addrs)))
+        got = f'connected {addrs.index(r[1])}' if isinstance(r[0], FakeSocket) else repr(r)
+    except Livelock:
+        got = 'Livelock'
+    except Exception as e:          # observed
+        got = 'E:' + sc.exc_name(e)
+    return 'con ' + ' '.join(toks), got, toks
+
+
+def oracle_connect(proto, behaviours, got):
+    cfg = '4' if proto in ('4', '4a') else '5n'
+    for i, b in enumerate(behaviours):
+        if b == 'v6':
+            # inexpressible destination: a SOCKS error, nothing later is tried
+            return None if got == 'E:SOCKSProtocolError' else (
+                'c17:connect-result', f'address {i} cannot be expressed, _connect gave {got}')
+        if b != 'x' and classify(cfg, bytes(b))[0] == {'ok'}:
+            return None if got == f'connected {i}' else (
+                'c17:connect-result', f'address {i} is granted, _connect gave {got}')
+    if got not in ('E:SOCKSFailure', 'E:SOCKSProtocolError', 'E:OSError'):
+        return 'c17:connect-result', f'no address is granted, _connect gave {got}'
+    return None
+
+
+CON_POOL = {
+    '5': [[5, 0] + [5, 0, 0, 1, 9, 9, 9, 9, 0, 80], [5, 255], [5, 0, 5, 5, 0, 1, 0], [5, 0, 5, 2, 0, 1, 0],
+          [4, 0], [5, 0, 5, 0], 'x'],
+    '4': [[0, 90] + [0] * 6, [0, 91] + [0] * 6, [0, 92] + [0] * 6, [1, 90] + [0] * 6, [0, 90], 'x', 'v6'],
+}
+
+
+def con_cases(deep):
+    for proto in ('5', '4'):
+        pool = [tuple(x) if isinstance(x, list) else x for x in CON_POOL[proto]]
+        for a in pool:
+            yield proto, [a]
+            for b in pool:
+                yield proto, [a, b]
+                if deep or (a != b):
+                    for c in pool:
+                        yield proto, [a, b, c]
+
+
 DET_CFG = {'4': '4', '4a': '4a', '5': None}
 
 
@@ -593,6 +690,24 @@ def eval_det(ctx, cases, res, scope_name):
     res['scopes'][scope_name] = res['scopes'].get(scope_name, 0) + len(cases)
 
 
+def eval_con(ctx, cases, res, scope_name):
+    cases = list(cases)
+    _init(ctx.repo)
+    outs = [impl_connect(_mods, proto, beh) for proto, beh in cases]
+    model = ctx.model([o[0] for o in outs])
+    for i, ((proto, beh), (line, got, toks)) in enumerate(zip(cases, outs)):
+        cj = {'op': 'con', 'proto': proto,
+              'behaviours': [b if isinstance(b, str) else bytes(b).hex() for b in beh]}
+        bad = oracle_connect(proto, beh, got)
+        if bad:
+            res.violation(bad[0], cj, bad[1], impl=got)
+        if model is not None and model[i] != got:
+            res.disagreement(cj, got, model[i], line=line)
+        res.count('con_' + got.split()[0])
+    res['evaluations'] += len(cases)
+    res['scopes'][scope_name] = res['scopes'].get(scope_name, 0) + len(cases)
+
+
 RULE = ('hs case = (client configuration, reply stream, segmentation) run through the real '
         '_handshake on a fake loop: outcome, bytes left unread, every (requested, returned) recv '
         'pair and every message sent are compared with the model; obj case = protocol object fed '
@@ -600,7 +715,9 @@ RULE = ('hs case = (client configuration, reply stream, segmentation) run throug
         'Exhaustive: all 256 values of every decision byte, bound-address lengths 0..255, '
         'whole / 1-byte / 2-split segmentations, EOF at every offset, trailing bytes; plus seeded '
         'random streams.  distinct non-trivial = distinct (configuration, stream, segmentation) '
-        'with at least two segments')
+        'with at least two segments; con case = _connect over 1..3 remote addresses whose '
+        '_connect_one outcomes (socket / returned exception with its repr / escaped exception) are '
+        'observed separately and given to the model')
 
 
 def run(ctx):
@@ -615,6 +732,7 @@ def run(ctx):
     if not res.failed or ctx.deep:
         eval_obj(ctx, obj_cases(ctx.deep, rng), res, 'objects_by_hand')
     eval_det(ctx, det_cases(ctx.deep), res, 'detect_proxy')
+    eval_con(ctx, con_cases(ctx.deep), res, 'connect_addresses')
     ngen = 120000 if ctx.deep else 8000
     gen = []
     for _ in range(ngen):
@@ -634,6 +752,9 @@ def replay(ctx, case):
         eval_hs(ctx, [(case['cfg'], list(bytes.fromhex(case['stream'])), case['segments'])], res, 'replay')
     elif op == 'obj':
         eval_obj(ctx, [(case['cfg'], [bytes.fromhex(c) for c in case['chunks']])], res, 'replay')
+    elif op == 'con':
+        eval_con(ctx, [(case['proto'], [b if b in ('x', 'v6') else tuple(bytes.fromhex(b))
+                                        for b in case['behaviours']])], res, 'replay')
     else:
         auth = tuple(case['auth']) if case['auth'] else None
         eval_det(ctx, [(case['proto'], auth,
